@@ -202,6 +202,8 @@ def run_cli(argv, stdin_text=None, cwd=None):
             except SystemExit as e:
                 code = e.code
             except BaseException as e:  # noqa: B902 - we report it, never swallow it
+                if type(e).__name__ == "CaseTimeout" or isinstance(e, KeyboardInterrupt):
+                    raise
                 exc = e
     finally:
         sys.argv = old_argv
